@@ -17,7 +17,7 @@
    and `values` says what number each printed field denotes: exactly, as
    (-1)^neg * mant * 10^e10.  All other columns are blanks. *)
 From Coq Require Import List ZArith Ascii Bool.
-From Coq Require String.
+From Coq Require String QArith.
 From PyOrb.spec Require Import Spec_Time.
 Import ListNotations.
 Open Scope Z_scope.
@@ -53,6 +53,12 @@ Definition sign_neg (s : sign) : bool := match s with Sminus => true | _ => fals
 (* an exact decimal value: (-1)^neg * mant * 10^e10 (neg is kept apart: "-00000-0" is a
    negative zero in binary64) *)
 Record dec := mkdec { neg : bool; mant : Z; e10 : Z }.
+
+(* its meaning as a rational number *)
+Definition dec_Q (d : dec) : QArith_base.Q :=
+  let m := if neg d then - mant d else mant d in
+  if 0 <=? e10 d then QArith_base.inject_Z (m * 10 ^ e10 d)
+  else QArith_base.Qmake m (Z.to_pos (10 ^ (- e10 d))).
 
 (* ---------- the four kinds of numeric field ---------- *)
 (* right-justified unsigned integer, padded on the left with blanks (digits may be zeros) *)
